@@ -62,7 +62,12 @@ fn chain<S: IntLike>(c: &Value) -> Value {
     let target = RecCond::<S> { salt: i64f(c, "salt"), cnt: 0, log: vec![] };
     let mut ch = GibbsMarkovChain::new(target, &init);
     let mut states = vec![];
-    for _ in 0..k {
+    // optionally the public state is replaced (possibly by a vector of another length) after `after` steps
+    let replace_after = c["replace"]["after"].as_u64().map(|x| x as usize);
+    for t in 0..k {
+        if replace_after == Some(t) {
+            ch.current_state = i64s(&c["replace"]["state"]).into_iter().map(S::from_i).collect();
+        }
         let s = ch.step();
         states.push(s.iter().map(|x| x.to_i()).collect::<Vec<i64>>());
     }
